@@ -25,6 +25,8 @@ type Program struct {
 	constCache, globalCache, fieldCache, typeCache sync.Map
 }
 
+type noForkAbort struct{}
+
 type pathEnd struct {
 	kind string // "done","assume","infeasible","unsupported","violation","panic","limit"
 	msg  string
@@ -105,6 +107,8 @@ type Engine struct {
 	nodeByName map[string]*Node
 	panicFrames []*frame
 	hashCount int
+	noFork int
+	forceOK bool
 	canon []canonEntry
 	errLog []string
 	nodeCells map[*Node]*Cell
@@ -205,6 +209,16 @@ func (e *Engine) branch(cond *Term) bool {
 	}
 	if v, ok := e.decide(cond); ok {
 		return v
+	}
+	if e.noFork > 0 {
+		// inside a best-effort comparison: only forced outcomes are allowed
+		if e.mustBe(cond) {
+			return true
+		}
+		if e.mustBe(ncond) {
+			return false
+		}
+		panic(noForkAbort{})
 	}
 	if e.pos < len(e.prefix) {
 		c := e.prefix[e.pos]
@@ -373,14 +387,23 @@ func (e *Engine) uniqueValue(t *Term) (uint64, bool) {
 	if t.isConst() {
 		return t.u64(), true
 	}
-	r, vals := e.solver.CheckInc(e.pc, nil, []*Term{t})
-	if r != rSat || vals == nil || vals[0] == nil {
-		return 0, false
+	var v uint64
+	if e.pos < len(e.prefix) {
+		v = uint64(e.prefix[e.pos])
+		e.pos++
+		e.trace = append(e.trace, int(v))
+	} else {
+		r, vals := e.solver.CheckInc(e.pc, nil, []*Term{t})
+		if r == rSat && vals != nil && vals[0] != nil {
+			v = vals[0].Uint64()
+		}
+		e.pos++
+		e.trace = append(e.trace, int(v))
 	}
-	c := e.tt.BV(vals[0], t.w)
+	c := e.tt.BVu(v, t.w)
 	if e.mustBe(e.tt.Eq(t, c)) {
 		e.addPC(e.tt.Eq(t, c))
-		return vals[0].Uint64(), true
+		return v, true
 	}
 	return 0, false
 }
@@ -406,7 +429,21 @@ func (e *Engine) mustBe(cond *Term) bool {
 	if cond.isFalse() {
 		return false
 	}
-	return e.check(e.tt.Not(cond)) == rUnsat
+	// the verdict is part of the decision vector: a solver timeout must not change the shape of a re-executed path
+	if e.pos < len(e.prefix) {
+		v := e.prefix[e.pos]
+		e.pos++
+		e.trace = append(e.trace, v)
+		return v == 1
+	}
+	r := e.check(e.tt.Not(cond)) == rUnsat
+	e.pos++
+	if r {
+		e.trace = append(e.trace, 1)
+	} else {
+		e.trace = append(e.trace, 0)
+	}
+	return r
 }
 
 // ---- exploration driver ------------------------------------------------------
